@@ -170,3 +170,46 @@ pub fn replay(args: &[String]) {
     out.line(&json!({"summary": {"cells": n, "mismatches": bad}}));
     out.flush();
 }
+
+/// conv-one <file>: re-execute recorded conversions (replay of a trace-found case); prints the records with fresh `actual`.
+pub fn one(args: &[String]) {
+    silence_panics();
+    let recs = read_ndjson(&args[0]);
+    let mut out = Out::new(None);
+    for mut r in recs {
+        let kind = r["kind"].as_str().unwrap_or("").to_string();
+        match kind.as_str() {
+            "from_int" => {
+                let neg = r["n"][0].as_bool().unwrap();
+                let mag = limbs_to_u128(r["n"][1].as_array().unwrap()).unwrap_or(0);
+                let ty = r["ty"].as_str().unwrap().to_string();
+                let actual = guarded(move || match ty.as_str() {
+                    "i8" => Value::from(if neg { (mag as i128).wrapping_neg() as i8 } else { mag as i8 }),
+                    "i16" => Value::from(if neg { (mag as i128).wrapping_neg() as i16 } else { mag as i16 }),
+                    "i32" => Value::from(if neg { (mag as i128).wrapping_neg() as i32 } else { mag as i32 }),
+                    "i64" => Value::from(if neg { (mag as i128).wrapping_neg() as i64 } else { mag as i64 }),
+                    "i128" => Value::from(if neg { (mag as i128).wrapping_neg() } else { mag as i128 }),
+                    "u8" => Value::from(mag as u8),
+                    "u16" => Value::from(mag as u16),
+                    "u32" => Value::from(mag as u32),
+                    "u64" => Value::from(mag as u64),
+                    _ => Value::from(mag),
+                });
+                r["actual"] = actual.map(|v| value_to_json(&v)).unwrap_or(json!(["panic"]));
+            }
+            "integer" => {
+                if let Some(v) = json_to_value(&r["v"]) {
+                    r["actual"] = acc_result("integer", &v);
+                }
+            }
+            "accessor" => {
+                if let Some(v) = json_to_value(&r["v"]) {
+                    r["actual"] = acc_result(r["acc"].as_str().unwrap(), &v);
+                }
+            }
+            _ => {}
+        }
+        out.line(&r);
+    }
+    out.flush();
+}
